@@ -45,6 +45,12 @@ def hazard_pointer_rules(ctx):
             label="delete|!protected", why="a retired node may only be destroyed if no hazard pointer protects it")
     guarded(ctx, "HP.delete-licensed", HP + "thread_data::reclaim_nodes", call("add_retired_node"), call("std::binary_search"), True,
             label="keep|protected", why="a protected node must stay in the retire list (not dropped: C02)")
+    for fn in flow._shapes(ctx, CB + "hazard_pointer::try_get_object"):
+        for r in [r for r in flow.find(fn, {"k": "return"}) if fn.kids(r) and fn.nodes[fn.kids(r)[0]].get("v") == 1]:
+            ok, pth, n = flow.only_via(fn, r, lambda f, nid: f.nodes[nid]["k"] == "bin" and f.nodes[nid]["op"] == "==" and "call:mark" in flow.srcs(f, nid)
+                                       and any(f.nodes[k].get("v") == 0 for k in f.kids(nid)), True)
+            ctx.check(ok and n > 0, "HP.active-gather", CB + "hazard_pointer::try_get_object#object|not-a-link", "a slot contributes a protection only if it holds an object, not a free-list link",
+                      "try_get_object reports a free-list link as a protected object (or vice versa): real protections are ignored by scans", fn.where(r), fn=fn)
     # C01.b validate after protect
     for f, lab in (("guard_ptr::acquire", "acquire"), ("guard_ptr::acquire_if_equal", "acquire_if_equal")):
         chain(ctx, "HP.validate-after-protect", HP + f,
@@ -179,6 +185,12 @@ def hazard_eras_rules(ctx):
           [FENCE_SC, call("adopt_abandoned_retired_nodes"), call("std::for_each", desc="gather loop"), FENCE_ACQ, call("reclaim_nodes")], label="scan-order")
     present(ctx, rid, HE + "thread_data::scan", call("reclaim_nodes"), minimum=2, label="reclaims-local-and-adopted")
     guarded(ctx, "HE.active-gather", HE + "thread_data::scan::(lambda0)::operator()", call("gather_protected_eras"), call("is_active"), True, label="gather|is_active")
+    for fn in flow._shapes(ctx, CB + "hazard_era::try_get_era"):
+        for r in [r for r in flow.find(fn, {"k": "return"}) if fn.kids(r) and fn.nodes[fn.kids(r)[0]].get("v") == 1]:
+            ok, pth, n = flow.only_via(fn, r, lambda f, nid: f.nodes[nid]["k"] == "bin" and f.nodes[nid]["op"] == "==" and "call:mark" in flow.srcs(f, nid)
+                                       and any(f.nodes[k].get("v") == 0 for k in f.kids(nid)), True)
+            ctx.check(ok and n > 0, "HE.active-gather", CB + "hazard_era::try_get_era#era|not-a-link", "a slot contributes an era only if it holds an era, not a free-list link",
+                      "try_get_era reports a free-list link as a protected era (or ignores real eras)", fn.where(r), fn=fn)
     # retirement era is taken (release RMW on the clock) before the node enters the retire list; deleter before
     chain(ctx, "HE.retire", HE + "guard_ptr::reclaim", [call("set_deleter"), {"k": "call", "field": "era_clock", "op": "fetch_add"}, call("add_retired_node")],
           label="deleter<era<retire", why="retirement era must be stamped before the node can be examined by a scan")
@@ -563,6 +575,52 @@ def lfrc_rules(ctx):
         ctx.broken.append("LFRC: only %d RMW operations on ref_count found" % n_rmw)
     else:
         ctx.ok("LFRC.counter-rmw-only", L + "#rmw-sites", "%d RMW sites on ref_count" % n_rmw, "xenium/reclamation/impl/lock_free_ref_count.hpp")
+    from .evalx import evalx, Unknown
+    for fn in flow._shapes(ctx, L + "enable_concurrent_ptr::decrement_refcnt"):
+        rets = flow.find(fn, {"k": "return"})
+        cas = flow.find(fn, {"k": "call", "kind": "cas"})
+        if not rets or not cas:
+            continue
+        oldv = fn.nodes[fn.kids(cas[0])[1]].get("name")
+        newv = fn.kids(cas[0])[2]
+        # new value as a function of the old one: the conditional update (new = old - Inc; if (new == 0) new = ClaimBit) is evaluated along its two paths
+        bad = None
+        try:
+            for old_cnt, want_new, want_ret in ((2, 1, 1), (4, 2, 0), (6, 4, 0), (5, 3, 0)):
+                env = {oldv: old_cnt}
+                # follow the loop body once: decl/assignments of the new value
+                newname = fn.nodes[newv].get("name")
+                val = None
+                for b, i, e, n in fn.events():
+                    if n["k"] == "bin" and n["op"] == "=" and fn.nodes[fn.kids(e)[0]].get("name") == newname:
+                        rhs = fn.kids(e)[1]
+                        if fn.atomic(rhs):
+                            continue
+                        blk = fn.blocks[b]
+                        # assignment inside the 'became zero' branch?
+                        guards = [pb for pb in fn.preds()[b] if "cond" in fn.blocks[pb]]
+                        if guards and val is not None:
+                            g = fn.blocks[guards[0]]
+                            env2 = dict(env)
+                            env2[newname] = val
+                            if evalx(fn, g["cond"], env2) and g["succ"][0] == b:
+                                val = evalx(fn, rhs, env2)
+                        else:
+                            val = evalx(fn, rhs, env)
+                if val is None:
+                    raise Unknown("new value not found")
+                env[newname] = val
+                ret = evalx(fn, fn.kids(rets[0])[0], env)
+                if (val != want_new or bool(ret) != bool(want_ret)) and bad is None:
+                    bad = (old_cnt, val, bool(ret), want_new, bool(want_ret))
+        except Unknown as ex:
+            ctx.note("decrement_refcnt not evaluable: %s" % ex)
+            bad = None
+            continue
+        ctx.check(bad is None, "LFRC.delete-licensed", L + "enable_concurrent_ptr::decrement_refcnt#claims-iff-zero",
+                  "decrement claims the node (returns true, count = claim bit) exactly when the count drops to zero",
+                  "decrement_refcnt(old=%s) yields count %s / returns %s, expected %s / %s: the node is destroyed while references remain, or never destroyed" % (
+                      bad if bad else (0, 0, 0, 0, 0)), fn.where(), fn=fn)
     # decrement_refcnt returns true only for the thread that set the claim bit
     present(ctx, rid, L + "enable_concurrent_ptr::decrement_refcnt", {"k": "call", "kind": "cas", "desc": "ref_count CAS"}, label="cas")
 
